@@ -123,7 +123,7 @@ def r2(ctx):
         ctx.ok(upd, "with no labels every cluster's membership is emptied", line=s.stmt.lineno, role="refresh:empty", nontrivial=False)
     main = [s for s in ss if isinstance(s.base, Idx) and s.loops and s.value != tm.Lst([])]
     if not main:
-        ctx.fail(upd, "per-cluster membership assignment not found", role="refresh:assign")
+        ctx.unrecognised(upd, "per-cluster membership assignment not found in the shape `clusters[k].member_points = buckets[k]`", role="refresh:assign")
     for s in main:
         k = s.base.idx[0]
         rng = s.loop_ranges[-1]
